@@ -1,27 +1,46 @@
 #!/bin/sh
-# tools/selftest.sh [prop ...]: every recorded mutant must make its property's check exit 1 (must-fail corpus);
-# then the unchanged tree must exit 0. /repo is restored after each mutant.
+# tools/selftest.sh [prop ...]: every recorded mutant must make its property's check exit 1 (must-fail corpus), and the
+# known findings must be reported as violations when the known-findings file is empty (canary).
+# Runs on scratch worktrees of /repo's HEAD under /tmp (removed afterwards), SELFTEST_JOBS in parallel, with a frozen
+# copy of the govc binary, so /repo and /verif/out are not touched and work can go on meanwhile.
+# Result lines go to stdout and to /verif/out/selftest.log.
+export GOFLAGS=-mod=mod GOPROXY=off GOSUMDB=off GOTOOLCHAIN=local
 if ! git -C /repo diff --quiet; then echo "REFUSING: /repo has uncommitted changes to tracked files (commit the contract files first)"; exit 9; fi
 cd /verif
+./setup.sh >/dev/null 2>&1 || { echo "TOOL-ERROR cannot build govc"; exit 2; }
 props="$@"; [ -z "$props" ] && props=$(ls selftest/mutants)
-fail=0
+jobs=${SELFTEST_JOBS:-4}
+root=/tmp/selftest.$$; mkdir -p $root; cp bin/govc $root/govc
+list=$root/list; : > $list
 for p in $props; do
-  for m in selftest/mutants/$p/*.patch; do
-    [ -f "$m" ] || continue
-    git -C /repo apply "/verif/$m" || { echo "MUTANT-DOES-NOT-APPLY $m"; fail=1; continue; }
-    ./check $p -timeout ${SELFTEST_TIMEOUT:-10} -no-evidence > /tmp/selftest.$$.log 2>&1; rc=$?
-    git -C /repo checkout -- .
-    n=$(grep -c '^VIOLATION' /tmp/selftest.$$.log)
-    first=$(grep -m1 'FAILED' /tmp/selftest.$$.log | awk '{print $NF}')
-    if [ $rc -eq 1 ]; then echo "caught   $m ($n obligations; first: $first)"; else echo "MISSED   $m (exit $rc)"; fail=1; fi
-  done
+  for m in selftest/mutants/$p/*.patch; do [ -f "$m" ] && echo "$p $m" >> $list; done
+  if grep -q "^finding: property=$p " known_findings.txt 2>/dev/null; then echo "$p CANARY" >> $list; fi
 done
-# known findings double as canaries: without the known-findings file the check must raise the alarm
-for p in $props; do
-  if grep -q "^finding: property=$p " known_findings.txt 2>/dev/null; then
-    ./check $p -timeout ${SELFTEST_TIMEOUT:-10} -no-evidence -known /dev/null > /tmp/selftest.$$.log 2>&1; rc=$?
-    if [ $rc -eq 1 ]; then echo "caught   canary: known findings of $p are reported as violations when not listed"; else echo "MISSED   canary for $p (exit $rc)"; fail=1; fi
-  fi
-done
-rm -f /tmp/selftest.$$.log
+worker() {
+  w=$1; wt=$root/wt$w
+  git -C /repo worktree add -q --detach $wt HEAD || exit 3
+  i=0
+  while read p m; do
+    i=$((i+1)); [ $((i % jobs)) -eq $w ] || continue
+    log=$root/log.$w
+    if [ "$m" = CANARY ]; then
+      GOVC_REPO=$wt GOVC_OUT=$root/out$w $root/govc check -prop $p -tier quick -timeout ${SELFTEST_TIMEOUT:-10} -no-evidence -known /dev/null > $log 2>&1; rc=$?
+      if [ $rc -eq 1 ]; then echo "caught   canary: known findings of $p are reported as violations when not listed"; else echo "MISSED   canary for $p (exit $rc)"; fi
+      continue
+    fi
+    git -C $wt apply "/verif/$m" || { echo "MUTANT-DOES-NOT-APPLY $m"; continue; }
+    GOVC_REPO=$wt GOVC_OUT=$root/out$w $root/govc check -prop $p -tier quick -timeout ${SELFTEST_TIMEOUT:-10} -no-evidence > $log 2>&1; rc=$?
+    git -C $wt checkout -q -- .
+    n=$(grep -c '^VIOLATION' $log)
+    first=$(grep -m1 'FAILED' $log | awk '{print $NF}')
+    if [ $rc -eq 1 ]; then echo "caught   $m ($n obligations; first: $first)"; else echo "MISSED   $m (exit $rc)"; fi
+  done < $list
+  git -C /repo worktree remove --force $wt
+}
+w=0; while [ $w -lt $jobs ]; do worker $w > $root/res.$w & w=$((w+1)); done; wait
+mkdir -p out; cat $root/res.* | sort -k2 > $root/all; cat $root/all
+if [ -z "$*" ]; then cp $root/all out/selftest.log; else grep -v -F -f /dev/null out/selftest.log 2>/dev/null | while read l; do keep=1; for p in $props; do case "$l" in *"mutants/$p/"*|*"of $p are"*|*"for $p "*) keep=0;; esac; done; [ $keep -eq 1 ] && echo "$l"; done > $root/old; cat $root/old $root/all | sort -k2 > out/selftest.log; fi
+fail=0; grep -q "^MISSED\|^MUTANT-DOES-NOT-APPLY" $root/all && fail=1
+total=$(grep -c "" $list); got=$(grep -c "" $root/all); [ "$total" -ne "$got" ] && { echo "TOOL-ERROR: $got results for $total entries"; fail=1; }
+rm -rf $root; git -C /repo worktree prune
 exit $fail
